@@ -69,3 +69,15 @@ Example C14_released_witness :
   has_cycle (cells (heap_run V2 (heap_init V2) ts)) = true /\ has_cycle (final_cells V2 ts) = false
   /\ run_mut V2 (heap_init V2) ts = [0%nat].
 Proof. vm_compute. repeat split. Qed.
+
+(* (5) Reference counting made explicit (ReleaseP.freed: a cell is freed as soon as every cell that points
+   to it has been freed - there are no roots once the generator is reset or dropped; Weak handles do not
+   count): on the cell graph that release_cycles leaves behind EVERY cell is freed, for every protocol and
+   every token history; and a cell on a cycle would never be (why finding I leaked). *)
+Theorem C14_all_freed : forall v ts i, i < length (final_cells v ts) -> freed (final_cells v ts) i.
+Proof. exact final_cells_all_freed. Qed.
+Print Assumptions C14_all_freed.
+
+Theorem C14_cycle_leaks : forall cs a, path cs a a -> ~ freed cs a.
+Proof. exact cycle_never_freed. Qed.
+Print Assumptions C14_cycle_leaks.
